@@ -701,6 +701,7 @@ type Engine struct {
 var coinMu sync.Mutex
 
 type Emu struct {
+	nowByG sync.Map
 	v     *bttest.VerifServer
 	now   int64
 	coins []bool
@@ -709,7 +710,13 @@ type Emu struct {
 
 func NewEmu(st bttest.Storage) *Emu {
 	e := &Emu{}
-	e.v = bttest.VerifNewServer(bttest.Options{Storage: st, Clock: func() bigtable.Timestamp { return bigtable.Timestamp(e.now) }})
+	e.v = bttest.VerifNewServer(bttest.Options{Storage: st, Clock: func() bigtable.Timestamp {
+		// concurrent requests each carry their own clock value
+		if v, ok := e.nowByG.Load(goid()); ok {
+			return bigtable.Timestamp(v.(int64))
+		}
+		return bigtable.Timestamp(e.now)
+	}})
 	return e
 }
 
@@ -900,6 +907,9 @@ func (e *Emu) Exec(c Call) (out Resp) {
 }
 
 func (e *Emu) exec(c Call) Resp {
+	g := goid()
+	e.nowByG.Store(g, c.Now)
+	defer e.nowByG.Delete(g)
 	e.now = c.Now
 	e.coins = c.Coins
 	e.ci = 0
